@@ -372,7 +372,8 @@ pub fn run(ctx: &mut Ctx) {
                     // every thread keeps coming back to a few ids of its own, interleaved with random ones
                     let own: Vec<u64> = (0..4).map(|_| rng.below(dom)).collect();
                     for k in 0..60_000u64 {
-                        let id = if k % 3 == 0 { own[(k / 3 % 4) as usize] } else { rng.below(dom) };
+                        // bursts of the same id (whatever is remembered from the previous call is used again), then other ids
+                        let id = if k % 16 < 10 { own[(k / 16 % 4) as usize] } else { rng.below(dom) };
                         let want = R::id_to_zxy(id);
                         match zxy(id) {
                             Ok(got) if Some(got) == want.map(|(z, x, y)| (z, x, y)) => {}
